@@ -322,6 +322,13 @@ def check_pyramid(base, state, ctxw, seed):
     return fails, n_addr
 
 
+def deepest_layer(base, url):
+    """Depth of the deepest layer that holds a tile file, read off the paths through the template."""
+    lv = [level_of(r, url) for r in list_tile_files(base)]
+    lv = [t[0] for t in lv if t is not None]
+    return max(lv) if lv else None
+
+
 # ----------------------------------------------------------------------------------------
 # inputs
 
@@ -522,8 +529,14 @@ def run_spec(spec, d, logdir):
     from toasty import TilingMethod
     mode = spec["mode"]
     paths = []
-    for k in range(spec["n_files"]):
+    files = spec.get("files")      # per-input description (own size, pixel scale, place), in input order
+    for k in range(len(files) if files else spec["n_files"]):
         p = os.path.join(d, "in%d.fits" % k)
+        if files:
+            f = files[k]
+            write_fits_input(p, f["H"], f["W"], tuple(f["crval"]), f["scale"], base=f.get("base", 1000.0 * k))
+            paths.append(p)
+            continue
         H, W = spec["H"], spec["W"]
         if mode == "TAN":
             write_fits_input(p, H, W, (10.0, 20.0), spec["scale"], crpix=[(W + 1) / 2.0 - k * (W - 40), (H + 1) / 2.0 + k * 30], base=1000.0 * k)
@@ -557,6 +570,16 @@ def run_spec(spec, d, logdir):
         f, n = check_pyramid(base, state, w, spec.get("seed", 0))
         tiles += n
         fails += [(o, dict(w, **e), m) for o, e, m in f]
+        # the description handed back must itself name the deepest populated layer (not only agree with the WTML)
+        deep = deepest_layer(base, w.get("url") or "")
+        try:
+            tl_b = int(bld.imgset.tile_levels)
+        except Exception:
+            tl_b = None
+        if deep is not None and tl_b != deep:
+            fails.append((O_LEVELS, dict(w, source="returned_builder", tile_levels=tl_b, deepest_on_disk=deep, deepest_written=None),
+                          "history step %d (%s): the Builder returned by tile_fits says tile_levels=%r but the deepest populated layer on disk is %r"
+                          % (si, step, tl_b, deep)))
         diffs = _description_diffs(bld, base)
         if diffs:
             keys = sorted(diffs)
@@ -624,6 +647,26 @@ def build_specs(ctx):
     for su in setups:
         for h in histories:
             specs.append(dict(su, workflow="tile_fits", format="fits", scheme="L/Y/YX", history=h))
+    # TOAST auto-tiling of inputs with clearly different pixel scales (natural TOAST levels 1, 3, 4: at level L a
+    # tile pixel is 21.095 / 2^(L-1) arcmin), no `start` pinned, every input order: whichever input comes last,
+    # TileLevels (WTML and returned Builder) must be the deepest populated layer.
+    import itertools as _it
+    ms = [{"W": 30, "H": 20, "scale": 0.4, "crval": [40.0, 10.0], "base": 0.0},
+          {"W": 24, "H": 16, "scale": 0.1, "crval": [70.0, -10.0], "base": 1000.0},
+          {"W": 20, "H": 14, "scale": 0.05, "crval": [100.0, 25.0], "base": 2000.0}]
+    combos = [((0, 1), ["fresh", "reuse"]), ((0, 2), ["fresh"]), ((0, 1, 2), ["fresh"])]
+    if thorough:
+        combos = [((0, 1), ["fresh", "reuse", "override", "reuse"]), ((0, 2), ["fresh", "override"]), ((1, 2), ["fresh", "reuse"]),
+                  ((0, 1, 2), ["fresh", "reuse"])]
+        ms.append({"W": rng.randint(8, 30), "H": rng.randint(8, 30), "scale": rng.choice([0.3, 0.4, 0.6]),
+                   "crval": [rng.uniform(0, 360), rng.uniform(-60, 60)], "base": 3000.0})
+        ms.append({"W": rng.randint(8, 30), "H": rng.randint(8, 30), "scale": rng.choice([0.03, 0.06, 0.08]),
+                   "crval": [rng.uniform(0, 360), rng.uniform(-60, 60)], "base": 4000.0})
+        combos += [((3, 4), ["fresh", "reuse"]), ((3, 1, 4), ["fresh"])]
+    for members, h in combos:
+        for order in _it.permutations(members):
+            specs.append({"workflow": "tile_fits", "mode": "TOAST", "format": "fits", "scheme": "L/Y/YX", "history": list(h),
+                          "n_files": len(order), "files": [ms[i] for i in order], "input_order": list(order), "mixed_scales": True})
     for s in specs:
         s["seed"] = ctx.seed
     return specs
@@ -639,6 +682,10 @@ def run(ctx):
     ctx.bound("schemes L/Y/YX and LXY; formats png, jpg, npy, fits; study image sizes up to %d px; all-sky depth <= %d; tile_fits TAN "
               "(1-%d files) and TOAST with histories %s" % (1300 if ctx.thorough else 700, 3 if ctx.thorough else 2, 3 if ctx.thorough else 2,
                                                            "all 8 of length 3 after fresh" if ctx.thorough else "fresh,reuse,override,reuse / fresh,override,reuse / fresh,reuse,reuse"))
+    nmix = sum(1 for s in specs if s.get("mixed_scales"))
+    ctx.bound("%d of the tile_fits runs: TOAST mode, no `start`, 2-3 tiny inputs (<= 30 px) whose pixel scales differ by >= 4x (0.4, 0.1, "
+              "0.05 deg/px: natural TOAST levels 1, 3, 4%s), every input order; TileLevels of the WTML and of the returned Builder vs the "
+              "deepest layer on disk" % (nmix, "; plus two seeded coarse/fine inputs" if ctx.thorough else ""))
     ctx.bound("every position whose tile was written (ghost log of PyramidIO.write_image, all levels) vs the expanded Url; every tile file on "
               "disk vs the set of expanded positions; injectivity over all positions to depth 6 + 3000 seeded + digit-shift pairs to depth 13")
     ctx.assume("PNG/NPY/FITS codecs lossless, JPEG within mean abs error 12 and not clearly (2x, > 3 grey levels) closer to another position's tile; wwt_data_formats serialises the "
